@@ -127,7 +127,7 @@ class RandomGen:
         if c == 'destr':
             return b.new('destr', k=r.randint(0, 3), **b.iterdesc(r))
         if c == 'ystar':
-            return b.new('ystar', k=r.randint(0, 1), **b.iterdesc(r))
+            return b.new('ystar', k=r.randint(0, 2), **b.iterdesc(r))
         if c == 'label':
             b.lblid += 1
             lid = b.lblid
@@ -158,7 +158,7 @@ def random_program(pid, rnd, gen=False, maxd=3):
     root = g.b.block(g.stmts(maxd, dict(inloop=False, insw=False, labels=[]), 4))
     ops = []
     if gen:
-        ops = [dict(op=rnd.choice(['next', 'next', 'next', 'throw', 'return']), v=rnd.randint(1, 9))
+        ops = [dict(op=rnd.choice(['next', 'next', 'next', 'throw', 'return']), v=rnd.randint(1, 9), ctx=rnd.choice([0, 0, 1, 2, 3]))
                for _ in range(rnd.randint(1, 6))]
     return dict(id=pid, root=root, nodes=g.b.nodes, gen=1 if gen else 0, ops=ops)
 
@@ -184,7 +184,7 @@ def systematic_programs(start_id, gen=False, depth=2, limit=None, rnd=None):
         hist = []
         for ln in (1, 2, 3):
             for h in itertools.product(ops, repeat=ln):
-                hist.append([dict(op=o, v=v) for o, v in h])
+                hist.append([dict(op=o, v=v, ctx=(len(hist) + j) % 4) for j, (o, v) in enumerate(h)])
     for combo in itertools.product(kinds, repeat=depth):
         for ab in ABRUPT:
             if ab == 'yield' and not gen:
@@ -317,7 +317,7 @@ def build_nested(combo, ab, gen):
 # printer
 
 PRE = '''function E(e){ return e instanceof TypeError ? 9999 : e; }
-function mk(id,n,hasRet,retThrows,nt,hasThrow){ var it={}; it[Symbol.iterator]=function(){ var c=0; var o={ next:function(v){ c++; log(30000+id*100+c); if(nt===c) throw 7; return c<=n ? {value:c,done:false} : {value:undefined,done:true}; } }; if(hasRet) o['return']=function(v){ log(40000+id*100); if(retThrows) throw 8; return {value:v,done:true}; }; if(hasThrow) o['throw']=function(e){ log(45000+id*100); throw e; }; return o; }; return it; }
+function mk(id,n,hasRet,retThrows,nt,hasThrow){ var it={}; it[Symbol.iterator]=function(){ var c=0; var o={ next:function(v){ c++; log(30000+id*100+c); if(nt===c) throw 7; return c<=n ? {value:c,done:false} : {value:undefined,done:true}; } }; if(hasRet) o['return']=function(v){ log(40000+id*100); if(retThrows) throw 8; return {value:v,done:true}; }; if(hasThrow===1) o['throw']=function(e){ log(45000+id*100); throw e; }; if(hasThrow===2) o['throw']=function(e){ log(45000+id*100); return {value:55,done:true}; }; return o; }; return it; }
 '''
 
 
@@ -438,7 +438,17 @@ def print_js(prog, probes=False):
     nodes = prog['nodes']
     body = '\n'.join(print_stmts(nodes, nodes[prog['root'] - 1]['a'], 1, {'probes': True} if probes else None))
     if prog['gen']:
-        drv = '\n'.join('R(function(){ return it.%s(%d) });' % (o['op'], o['v']) for o in prog['ops'])
+        def call(i, o):
+            c = 'R(function(){ return it.%s(%d) })' % (o['op'], o['v'])
+            k = o.get('ctx', 0)
+            if k == 1:      # inside a for-of of the CALLER (an iterator of the caller is open while the generator runs)
+                return 'for (var q%d of [0]) { %s; }' % (i, c)
+            if k == 2:      # at a deeper operand-stack position of the caller
+                return '[7, 8, %s].length;' % c
+            if k == 3:      # inside the caller's try/finally inside for-in
+                return 'for (var q%d in {a:1}) { try { %s; } finally { } }' % (i, c)
+            return c + ';'
+        drv = '\n'.join(call(i, o) for i, o in enumerate(prog['ops']))
         return (PRE + 'var T=true, Fa=false;\nfunction* f(){\n' + body + '\n}\nvar it=f();\n'
                 'function R(g){ try { var r=g(); log(100000 + (r.value===undefined?0:r.value)*10 + (r.done?1:0)) } '
                 'catch(e){ log(200000+E(e)) } }\n' + drv)
